@@ -26,4 +26,6 @@ sys.exit(1 if miss else 0)
 P
 rc=$?
 rm -f $J
+# by-products of the tests themselves (untracked)
+for f in rebound.html test.pickle test.sa; do git -C "$D" ls-files --error-unmatch "$f" >/dev/null 2>&1 || rm -f "$D/$f"; done
 exit $rc
